@@ -71,6 +71,59 @@ Section Delegation.
     match route_of c op with Some r => eval_route r mat x own | None => None end.
 End Delegation.
 
+(* ------------------------------------------------------------------------------------------------ *)
+(* 1b. the view as the RIGHT operand of a python object, augmented assignment                        *)
+(* ------------------------------------------------------------------------------------------------ *)
+(* python evaluates `x <op> view` for a python number / sequence x (whose own method answers NotImplemented) with the
+   view's REFLECTED method: for a comparison the mirrored comparison of the view (x < v is v > x, == and != are their own
+   mirrors), for arithmetic __r<op>__ - TypeError, i.e. no result, when the class has none.  numpy scalars and arrays on
+   the left hand over through __array_ufunc__ (section Convert). *)
+Definition mirror (op : vbinop) : vbinop :=
+  match op with OpLt => OpGt | OpLe => OpGe | OpGt => OpLt | OpGe => OpLe | o => o end.
+
+Definition rdunder (op : vbinop) : option string :=
+  match op with
+  | OpAdd => Some "__radd__" | OpSub => Some "__rsub__" | OpMul => Some "__rmul__" | OpTrueDiv => Some "__rtruediv__"
+  | OpFloorDiv => Some "__rfloordiv__" | _ => None
+  end%string.
+
+Definition lookup_r (t : list (string * rroute)) (n : string) : option rroute :=
+  match find (fun p => String.eqb (fst p) n) t with Some p => Some (snd p) | None => None end.
+
+(* the class's own reflected method, else the one inherited from ArrayView *)
+Definition reflected_route_of (c : vclass) (op : vbinop) : option rroute :=
+  match rdunder op with
+  | None => None
+  | Some n =>
+    let own := match c with
+               | CArrayView => Some RAbsent
+               | CSubField => lookup_r sfv_rops n
+               | CScaled => lookup_r sav_rops n
+               end in
+    match own with
+    | Some RAbsent => lookup_r av_rops n
+    | r => r
+    end
+  end.
+
+Section Reflected.
+  Variables Arr Opnd Res : Type.
+  Variable np_binop : vbinop -> Arr -> Opnd -> Res.      (* numpy's  array <op> operand *)
+  Variable np_rbinop : vbinop -> Opnd -> Arr -> Res.     (* numpy's  operand <op> array *)
+
+  (* `x <op> view`; None = python raises TypeError (no result) *)
+  Definition view_on_right (c : vclass) (op : vbinop) (x : Opnd) (mat : Arr) (own : vbinop -> Res) : option Res :=
+    if is_comparison op then view_binop Arr Opnd Res np_binop c (mirror op) mat x own
+    else match reflected_route_of c op with
+         | Some (RSwapped op') => Some (np_rbinop op' x mat)
+         | _ => None
+         end.
+
+  (* `v <op>= x` on a name bound to a view: no class defines an in-place method, python evaluates v = v <op> x *)
+  Definition view_inplace (c : vclass) (op : vbinop) (mat : Arr) (x : Opnd) (own : vbinop -> Res) : option Res :=
+    if views_inplace_absent && views_operator_surface_closed then view_binop Arr Opnd Res np_binop c op mat x own else None.
+End Reflected.
+
 (* __array_ufunc__ / __array_function__: _convert_array_views_to_array over nested lists/tuples of arguments *)
 Section Convert.
   Variables V A X : Type.
@@ -174,6 +227,12 @@ Definition sfv_binop_arr (m : Z) (bs : list Z) (op : vbinop) (x : operand) : lis
   map (fun b => sfv_binop_elem m b op x) bs.
 (* numpy: uint8 array <op> integer constant, element by element, in exact integers *)
 Definition np_cmp_const (op : vbinop) (vals : list Z) (c : Z) : list (option bool) := map (fun v => cmp_bool op v c) vals.
+
+(* `x <op> view` with an integer constant on the LEFT: python's mirrored comparison of the view *)
+Definition sfv_rbinop_arr (m : Z) (bs : list Z) (op : vbinop) (x : operand) : list (option bool) :=
+  sfv_binop_arr m bs (mirror op) x.
+(* numpy: integer constant <op> uint8 array *)
+Definition np_rcmp_const (op : vbinop) (c : Z) (vals : list Z) : list (option bool) := map (fun v => cmp_bool op c v) vals.
 
 (* an integer array operand is never an `int`: materialised path, element by element *)
 Definition sfv_cmp_arrarr (m : Z) (bs : list Z) (op : vbinop) (cs : list Z) : list (option bool) :=
